@@ -578,6 +578,7 @@ def install(rec):
 
 
 REJECTED = weakref.WeakSet()
+NAMED = {}
 
 
 # ---------------------------------------------------------------------------
@@ -742,7 +743,8 @@ def wl_program(rng, rec, tier):
         return {"kind": kind, "rejected": True}
     exact = kind in ("Circuit", "CircuitDense")
     ngates = int(rng.integers(1, 31))
-    par = bool(rng.random() < 0.25) and exact
+    par = bool(rng.random() < 0.3) and exact
+    NAMED.clear()
     log = []
     circs = [circ]
     for step in range(ngates):
@@ -760,12 +762,36 @@ def wl_program(rng, rec, tier):
             if c2 is not gen.REJECTED and c2 is not None:
                 circs.append(c2)
                 log.append(("copy",))
-        elif par:
+        elif par and rng.random() < 0.5:
             ps = gen.attempt2(c.get_params)
             if ps is not gen.REJECTED and ps:
-                new = {k_: np.asarray(v) + float(rng.normal()) * 0.3 for k_, v in ps.items()}
-                gen.attempt2(c.set_params, new)
-                log.append(("set_params",))
+                new = {k_: np.asarray(v) + float(rng.normal()) * 0.3 for k_, v in ps.items()
+                       if not isinstance(k_, str)}
+                if new:
+                    gen.attempt2(c.set_params, new)
+                    log.append(("set_params",))
+        elif par:
+            # named (symbolic) parameters: register once, then re-bind by name only
+            names = NAMED.get(id(c))
+            if names is None:
+                idx = [i_ for i_, g_ in enumerate(c.gates) if g_.parametrize and not isinstance(g_.params, str)
+                       and len(np.asarray(g_.params).reshape(-1)) == 1][:3]
+                if idx:
+                    vals = {"a": float(rng.normal()), "b": float(rng.normal())}
+                    exprs = {}
+                    for n_, i_ in enumerate(idx):
+                        exprs[i_] = (gen.choice(rng, ["a", "b", "a + b", "2 * a"]),)
+                    r_ = gen.attempt2(c.register_named_params, vals, gate_expressions=exprs)
+                    if r_ is not gen.REJECTED:
+                        NAMED.clear()
+                        NAMED[id(c)] = ["a", "b"]
+                        log.append(("register_named",))
+                        do_query(c, rng, N, exact)
+            else:
+                do_query(c, rng, N, exact)
+                gen.attempt2(c.set_params, {gen.choice(rng, names): float(rng.normal())})
+                log.append(("set_named",))
+                do_query(c, rng, N, exact)
     # final queries on every live circuit (cache clause: repeated queries)
     for c in circs:
         for _ in range(3):
